@@ -326,6 +326,113 @@ fn one_pool_inner(ctx: &mut Ctx, t: &Ty, v: &V, ty_kind: &str, reduced: bool) {
     triples(ctx, &pool);
 }
 
+/// what pruning keeps of `t` for the element `v`: an unused side of a sum becomes `1` (or stays)
+fn pruned_ty(r: &mut crate::ctx::Rng, t: &Ty, v: &V) -> Ty {
+    match (&t.0.k, v) {
+        (K::Sum(a, b), V::L(x)) => Ty::sum(pruned_ty(r, a, x), if r.bool() { Ty::one() } else { b.clone() }),
+        (K::Sum(a, b), V::R(y)) => Ty::sum(if r.bool() { Ty::one() } else { a.clone() }, pruned_ty(r, b, y)),
+        (K::Prod(a, b), V::P(x, y)) => Ty::prod(pruned_ty(r, a, x), pruned_ty(r, b, y)),
+        _ => t.clone(),
+    }
+}
+
+/// The kin of one library object: values derived from *the same* `Value` (so that buffers are
+/// shared, at equal and at different bit offsets) — clones, wrappers `(ε, x)` and `(x, ε)`, every
+/// sub-value along random paths (`as_product`/`as_left`/`as_right` + `to_value`), pruned forms and
+/// their sub-values.  The expressions name the same histories for the model; the reference type
+/// and element of each come from `eval_ref`.
+fn kin_pool(ctx: &mut Ctx, t: &Ty, v: &V) {
+    let mut used = [0u64; NR];
+    let mut budget: i64 = 200;
+    let e0 = gen_expr(&mut ctx.rng, t, v, 1, &mut budget, &mut used);
+    let r = catch(|| eval_lib(&e0));
+    let base = match r {
+        Ok(Ok(b)) => b,
+        Ok(Err(_)) => return,
+        Err(m) => return ctx.fail("panic-history", &format!("c - - {} ; U", e0.show()), &m),
+    };
+    let mut kin: Vec<(E, Value)> = vec![(e0.clone(), base.clone())];
+    kin.push((E::P(Box::new(E::U), Box::new(e0.clone())), Value::product(Value::unit(), base.clone())));
+    kin.push((E::P(Box::new(e0.clone()), Box::new(E::U)), Value::product(base.clone(), Value::unit())));
+    let pt = pruned_ty(&mut ctx.rng, t, v);
+    if pt != *t {
+        if let Ok(Some(p)) = catch(|| base.prune(&pt.fin())) {
+            kin.push((E::PR(pt.clone(), Box::new(e0.clone())), p));
+        }
+    }
+    // sub-values of everything so far, along the leftmost path and along random paths
+    let roots = kin.len();
+    for i in 0..roots {
+        for leftmost in [true, false] {
+            let (mut e, mut val) = kin[i].clone();
+            for _ in 0..6 {
+                let step = catch(|| {
+                    if let Some((a, b)) = val.as_product() {
+                        Some(if leftmost || ctx.rng.bool() { (0u8, a.to_value()) } else { (1u8, b.to_value()) })
+                    } else if let Some(a) = val.as_left() {
+                        Some((2u8, a.to_value()))
+                    } else {
+                        val.as_right().map(|b| (3u8, b.to_value()))
+                    }
+                });
+                let Ok(Some((k, sub))) = step else { break };
+                e = match k {
+                    0 => E::A1(Box::new(e)),
+                    1 => E::A2(Box::new(e)),
+                    2 => E::AL(Box::new(e)),
+                    _ => E::AR(Box::new(e)),
+                };
+                val = sub;
+                kin.push((e.clone(), val.clone()));
+                if kin.len() >= 14 {
+                    break;
+                }
+            }
+        }
+    }
+    let mut pool: Vec<Item> = vec![];
+    for (e, lib) in kin {
+        let Ok((t, v)) = eval_ref(&e) else { continue };
+        let tmr: [u8; 32] = lib.ty().tmr().to_byte_array();
+        pool.push(Item { e, t, v, lib, tmr, what: "kin" });
+    }
+    ctx.count("reach:kin-pool");
+    for i in 0..pool.len() {
+        for j in 0..pool.len() {
+            if i != j {
+                pair(ctx, &pool[i], &pool[j]);
+            }
+        }
+    }
+    triples(ctx, &pool);
+}
+
+/// `eval_lib` with every distinct sub-expression evaluated once and reused (so that the values of a
+/// replayed case share buffers the way the kin of one object do)
+fn eval_shared(e: &E, memo: &mut std::collections::HashMap<String, Value>) -> Result<Value, String> {
+    let key = e.show();
+    if let Some(v) = memo.get(&key) {
+        return Ok(v.clone());
+    }
+    let v = match e {
+        E::L(x, b) => Value::left(eval_shared(x, memo)?, b.fin()),
+        E::R(a, x) => Value::right(a.fin(), eval_shared(x, memo)?),
+        E::P(x, y) => {
+            let l = eval_shared(x, memo)?;
+            let r = eval_shared(y, memo)?;
+            Value::product(l, r)
+        }
+        E::AL(x) => eval_shared(x, memo)?.as_left().ok_or("stuck")?.to_value(),
+        E::AR(x) => eval_shared(x, memo)?.as_right().ok_or("stuck")?.to_value(),
+        E::A1(x) => eval_shared(x, memo)?.as_product().ok_or("stuck")?.0.to_value(),
+        E::A2(x) => eval_shared(x, memo)?.as_product().ok_or("stuck")?.1.to_value(),
+        E::PR(t, x) => eval_shared(x, memo)?.prune(&t.fin()).ok_or("stuck")?,
+        other => eval_lib(other)?,
+    };
+    memo.insert(key, v.clone());
+    Ok(v)
+}
+
 pub fn replay(ctx: &mut Ctx, case: &str) {
     let toks: Vec<&str> = case.split_whitespace().collect();
     if toks.is_empty() {
@@ -339,9 +446,13 @@ pub fn replay(ctx: &mut Ctx, case: &str) {
         _ => return,
     };
     let mut items: Vec<Item> = vec![];
+    let mut memo = std::collections::HashMap::new();
     for part in toks[skip.min(toks.len())..].split(|t| *t == ";") {
         if let Some(e) = E::parse_all(part) {
-            if let Some(it) = mk(ctx, e, "replay") {
+            if let Some(mut it) = mk(ctx, e, "replay") {
+                if let Ok(Ok(shared)) = catch(|| eval_shared(&it.e, &mut memo)) {
+                    it.lib = shared;
+                }
                 items.push(it);
             }
         }
@@ -397,6 +508,11 @@ pub fn run(ctx: &mut Ctx) {
             ctx.count("reach:ty-word-512-to-4096-bits");
         }
         one_pool(ctx, &t, &v, kind, t.bw() >= 512);
+        if it % 4 == 0 && t.bw() < 512 {
+            if let Err(m) = catch(|| kin_pool(ctx, &t, &v)) {
+                ctx.fail("panic-compare", &format!("kin pool of type {}", t.show()), &m);
+            }
+        }
     }
     let _ = Rc::new(0);
 }
